@@ -310,6 +310,54 @@ theorem adj_nonempty_of_decls (s : Strat α) (f : Flow α) (h : ∀ d ∈ s.flow
     exact h d ((List.mem_filter.mp hd).1)
   · intro a ha; cases ha
 
+/-! ### the whole `flow.stratify(strat)` call
+
+Python resolves `flow.stratify` on the flow's class.  The regenerated class table (`Generated/Tables.lean`, from the class
+statements of `flows.py`) says which classes derive from `BaseEntryFlow`, `BaseExitFlow`, `BaseTransitionFlow` and which
+override `stratify` (`absoluteShareKinds`: `AbsoluteFlow`). -/
+
+/-- method resolution of `flow.stratify(strat)` over the regenerated class table -/
+def stratifyDispatch (f : Flow α) (s : Strat α) : Res (List (Flow α)) :=
+  if Summer.Generated.entryKinds.contains f.kind then BaseEntryFlow.stratify f s
+  else if Summer.Generated.exitKinds.contains f.kind then BaseExitFlow.stratify f s
+  else if Summer.Generated.absoluteShareKinds.contains f.kind then AbsoluteFlow.stratify f s
+  else BaseTransitionFlow.stratify f s
+
+/-- the shape the constructors of `flows.py` enforce: entry flows have a destination and no source, exit flows a source
+and no destination, transition-type flows both (`assert type(dest) is Compartment`, …) -/
+def WfEnds (f : Flow α) : Prop :=
+  if Summer.Generated.entryKinds.contains f.kind then f.src = none ∧ f.dst.isSome
+  else if Summer.Generated.exitKinds.contains f.kind then f.dst = none ∧ f.src.isSome
+  else f.src.isSome ∧ f.dst.isSome
+
+/-- `flow.stratify(strat)` of the source text is `Build.stratifyFlow` (the definition the C04 / C03 theorems are about),
+for every flow class, every stratification kind and every adjustment declaration -/
+theorem stratify_dispatch_eq (s : Strat α) (f : Flow α) (hwf : WfEnds f) (hne : AdjNonempty s f) :
+    erase (stratifyDispatch f s) = erase (Build.stratifyFlow f s) := by
+  unfold stratifyDispatch Build.stratifyFlow Build.isEntry Build.isExit
+  unfold WfEnds at hwf
+  by_cases he : Summer.Generated.entryKinds.contains f.kind = true
+  · simp only [he, ↓reduceIte] at hwf ⊢
+    obtain ⟨hs, hd⟩ := hwf
+    obtain ⟨c, hc⟩ := Option.isSome_iff_exists.mp hd
+    exact entry_stratify_eq s f c hc hs hne
+  · simp only [he, Bool.false_eq_true, ↓reduceIte] at hwf ⊢
+    by_cases hx : Summer.Generated.exitKinds.contains f.kind = true
+    · simp only [hx, ↓reduceIte] at hwf ⊢
+      obtain ⟨hd, hs⟩ := hwf
+      obtain ⟨c, hc⟩ := Option.isSome_iff_exists.mp hs
+      exact exit_stratify_eq s f c hc hd hne
+    · simp only [hx, Bool.false_eq_true, ↓reduceIte] at hwf ⊢
+      obtain ⟨hs, hd⟩ := hwf
+      obtain ⟨c, hc⟩ := Option.isSome_iff_exists.mp hs
+      obtain ⟨d, hdd⟩ := Option.isSome_iff_exists.mp hd
+      by_cases ha : Summer.Generated.absoluteShareKinds.contains f.kind = true
+      · simp only [ha, ↓reduceIte]
+        exact absolute_stratify_eq s f c d hc hdd hne ha
+      · have ha' : Summer.Generated.absoluteShareKinds.contains f.kind = false := by simpa using ha
+        simp only [ha', Bool.false_eq_true, ↓reduceIte]
+        exact transition_stratify_eq s f c d hc hdd hne ha'
+
 end
 
 /-! ### non-vacuity: the hypotheses are satisfiable, on an input that exercises the loop and the equal share -/
@@ -350,5 +398,6 @@ end
 #print axioms transition_stratify_eq
 #print axioms absolute_stratify_eq
 #print axioms adj_nonempty_of_decls
+#print axioms stratify_dispatch_eq
 #print axioms exStrat_adjNonempty
 end Summer.Props.C04Source
